@@ -284,7 +284,18 @@ class C13(Prop):
                 labs.append(l)
             if 1 + sum(len(l) + 1 for l in labs) <= 255:
                 rt.append("X rt " + c_name(labs))
-        return [("parse", parse), ("eq-hash", eq), ("text-roundtrip", rt)]
+        # the encoder may substitute a name only by an equal one (labels equal up to ASCII case): messages whose names
+        # print alike but split their labels differently, or differ only in case
+        import props_codec as PC
+        import gen_cases as G
+        enc = []
+        tpool = [[b"a.b", b"example", b"org"], [b"a", b"b", b"example", b"org"], [b"a", b"b.example", b"org"], [b"A.B", b"EXAMPLE", b"org"],
+                 [b"a.b.example.org"], [b"ab", b"example", b"org"], [b"example", b"org"], [b"EXAMPLE", b"ORG"], [b"b", b"example", b"org"],
+                 ["é".encode(), b"org"], ["É".encode(), b"org"], [b"k", b"org"], ["K".encode(), b"org"], [b"K", b"org"]]
+        for i in range(len(tpool)):
+            for j in range(len(tpool)):
+                enc.append("E Dns " + G.canon(PC.name_seq_msg([tpool[i], tpool[j], tpool[i]])))
+        return [("parse", parse), ("eq-hash", eq), ("text-roundtrip", rt), ("compression-targets", enc)]
 
     def nontrivial(self, case, line):
         return True
@@ -293,6 +304,9 @@ class C13(Prop):
         if line.startswith("PANIC"):
             return "implementation panicked: " + line[:200]
         w = case.split(" ", 2)
+        if w[0] == "E":
+            import props_codec as PC
+            return PC.encode_oracle(case, line, expect_ok=True)
         if w[1] == "parse":
             s = unhx(w[2])
             e = expect_parse(s)
